@@ -1048,9 +1048,14 @@ bufferevent_generic_adj_existing_timeouts_(struct bufferevent *bev)
 int
 bufferevent_add_event_(struct event *ev, const struct timeval *tv)
 {
-	if (!evutil_timerisset(tv))
+	if (!evutil_timerisset(tv)) {
+		/* Forget the interval of an earlier timed add: a persistent
+		 * event would otherwise re-arm it after its next activation
+		 * although the timeout has been cleared. */
+		if (!event_pending(ev, EV_TIMEOUT, NULL))
+			evutil_timerclear(&ev->ev_io_timeout);
 		return event_add(ev, NULL);
-	else
+	} else
 		return event_add(ev, tv);
 }
 
